@@ -44,6 +44,16 @@ def generate(rng, tier):
         sc["ops"] += [scen.cmd("create", "@R", *fm), {"op": "advance", "us": 1_000_000},
                       {"op": "rename", "src": src, "dst": dst, "fault": "rename_file"},
                       scen.cmd("create", "@R", "-dr", *fm)]
+    if rng.random() < 0.06:
+        # a nested history whose path repeats the absolute path of the root (a volume mirrored into itself with
+        # `rsync -R` / `cp --parents`): <root>/mirror/<root without leading slash>/clip
+        d = rng.choice(["mirror", "backup/day 1"]) + "/@SELF/clip"
+        parts = d.split("/")
+        for i in range(1, len(parts) + 1):
+            sc["world"]["tree"].setdefault("/".join(parts[:i]), {"t": "d"})
+        sc["world"]["tree"][d + "/x.bin"] = {"t": "f", "c": gen.unique_content(rng)}
+        fm = gen.fmt_args(gen.pick_formats(rng, 1, 2))
+        sc["ops"] += [scen.cmd("create", "@R/" + d, *fm), scen.cmd("create", "@R", *fm), scen.cmd("create", "@R", *fm)]
     return sc
 
 
